@@ -9,7 +9,7 @@ use vbase::{ensure, fail};
 use crate::lazyhelp::{gen_skip_stress, to_pointer};
 use crate::sx::walk;
 
-pub const RULE: &str = "cases are (document, path set) and (schema, document) pairs. Documents: well-formed duplicate-free generated / skip-stress documents and arrays of 65..200 elements (indices >= 64). Path sets: drawn from the reference tree by generated choices — subsets of valid paths, shared prefixes, a path that is a prefix of another, repeated paths, the root path, missing keys under objects and out-of-range indices under arrays (shape-consistent by construction). get_many and get_many_unchecked must return tree.size() slots in insertion order; a filled slot equals get(path_i) in text and offset; an empty slot only for a path that fails on a missing key; all slots filled and Ok when every path resolves; equal paths get identical slots; Err only if some path does not resolve. Schemas are generated from the document's object skeleton (kept keys with defaults of every kind, absent keys, nested non-empty and empty object schemas, type-mismatched positions); get_by_schema must equal the reference merge (order-insensitive) and, with numbers compared through as_raw_number, the merge of the parsed document into the schema (so in the arbitrary_precision build the literals are kept). Non-trivial = >= 2 paths sharing a prefix, a repeated path or a prefix-and-target pair; schema with an absent key and a nested non-empty object; distinct by case bytes.";
+pub const RULE: &str = "cases are (document, path set) and (schema, document) pairs. Documents: well-formed duplicate-free generated / skip-stress documents arrays of 65..200 elements (indices >= 64), documents nested 120..800 levels deep with the targets at the bottom (paths longer than the 255-level limit of the full parsers), objects with up to 120 empty-object members in front of a value nested 200..253 levels deep. Path sets: drawn from the reference tree by generated choices — subsets of valid paths, shared prefixes, a path that is a prefix of another, repeated paths, the root path, missing keys under objects and out-of-range indices under arrays (shape-consistent by construction). get_many and get_many_unchecked must return tree.size() slots in insertion order; a filled slot equals get(path_i) in text and offset; an empty slot only for a path that fails on a missing key; all slots filled and Ok when every path resolves; equal paths get identical slots; Err only if some path does not resolve. Schemas are generated from the document's object skeleton (kept keys with defaults of every kind, absent keys, nested non-empty and empty object schemas, type-mismatched positions); get_by_schema must equal the reference merge (order-insensitive) and, with numbers compared through as_raw_number, the merge of the parsed document into the schema (so in the arbitrary_precision build the literals are kept). Non-trivial = >= 2 paths sharing a prefix, a repeated path or a prefix-and-target pair; schema with an absent key and a nested non-empty object; distinct by case bytes.";
 pub const ASSUMPTIONS: &[&str] = &["refjson parser / lookup", "path sets mixing key and index children under one prefix are outside the quantifier and not generated", "get (single path) is checked against the reference in C10"];
 
 fn split_case(case: &[u8]) -> Option<(&[u8], &[u8])> {
@@ -55,6 +55,43 @@ fn choose_paths(root: &Node, src: &mut Src) -> Vec<Vec<PathElem>> {
             }
         }
     }
+    // very deep documents: the path to the innermost value and its neighbours (longer than any nesting limit
+    // of the full parsers — lookups walk a path without counting nesting)
+    {
+        let mut deep: Vec<PathElem> = Vec::new();
+        let mut node = root;
+        loop {
+            match &node.kind {
+                Kind::Arr(v) if !v.is_empty() => {
+                    deep.push(PathElem::Idx(v.len() - 1));
+                    node = &v[v.len() - 1];
+                }
+                Kind::Obj(v) if !v.is_empty() => {
+                    deep.push(PathElem::Key(v[v.len() - 1].0.text.clone()));
+                    node = &v[v.len() - 1].1;
+                }
+                _ => break,
+            }
+        }
+        if deep.len() > 200 {
+            // a single-path lookup validates the value it returns, which is subject to the 255-level limit of
+            // the validating skipper: keep only paths whose target nests at most 200 levels
+            let total = deep.len();
+            all.retain(|p| total - p.len().min(total) <= 200);
+        }
+        if deep.len() > 100 {
+            all.push(deep.clone());
+            all.push(deep[..deep.len() - 1].to_vec());
+            all.push(deep[..deep.len() - 2].to_vec());
+            let mut q = deep[..deep.len() - 1].to_vec();
+            q.push(PathElem::Key("\u{a7}absent".into()));
+            if matches!(root.lookup(&deep[..deep.len() - 1]).map(|n| &n.kind), Some(Kind::Obj(_))) {
+                all.push(q);
+            }
+            // make sure they are used: put them first
+            all.rotate_right(4);
+        }
+    }
     let n = 1 + src.below(7);
     let mut out: Vec<Vec<PathElem>> = Vec::new();
     for _ in 0..n {
@@ -95,6 +132,23 @@ fn choose_paths(root: &Node, src: &mut Src) -> Vec<Vec<PathElem>> {
     }
     // shape consistency: under one prefix all children must be of one kind (key or index).
     // Paths from the tree satisfy this; perturbed ones extend a container with its own kind.
+    // (very deep documents: see above, only targets that nest at most 200 levels)
+    let total = {
+        let mut d = 0usize;
+        let mut node = root;
+        loop {
+            match &node.kind {
+                Kind::Arr(v) if !v.is_empty() => node = &v[v.len() - 1],
+                Kind::Obj(v) if !v.is_empty() => node = &v[v.len() - 1].1,
+                _ => break,
+            }
+            d += 1;
+        }
+        d
+    };
+    if total > 200 {
+        out.retain(|p| total - p.len().min(total) <= 200);
+    }
     out
 }
 
@@ -338,6 +392,46 @@ pub fn run(ctx: &Ctx) {
         }
         doc.extend_from_slice(if obj { b"],\"z\":1}" } else { b"]" });
         let rest = src.take(24);
+        join_case(&doc, &rest)
+    });
+    // documents nested deeper than 255 levels with the interesting values at the bottom
+    ctx.search(&subs[0], "deep-paths", ctx.n(1_500, 15_000), 120, &|src: &mut Src| {
+        let depth = *src.pick(&[120usize, 250, 254, 255, 256, 257, 300, 800]);
+        let mut doc = Vec::new();
+        let mut closers = Vec::new();
+        for d in 0..depth {
+            if (d + depth) % 3 == 0 {
+                doc.extend_from_slice(b"{\"k\":");
+                closers.push(b'}');
+            } else {
+                doc.extend_from_slice(b"[0,");
+                closers.push(b']');
+            }
+        }
+        doc.extend_from_slice(b"{\"other\":1,\"leaf\":\"here\"}");
+        while let Some(c) = closers.pop() {
+            doc.push(c);
+        }
+        // choices that prefer the deep paths (they were rotated to the front of the candidate list)
+        let mut rest = vec![255u8, 250, 0, 250, 6, 250, 11, 250, 16, 250, 0];
+        rest.extend_from_slice(&src.take(16));
+        join_case(&doc, &rest)
+    });
+    // many members whose schema is a non-empty object while the document has `{}` there, followed by a
+    // deeply nested value that is still within the nesting limit
+    ctx.search(&subs[1], "empty-then-deep", ctx.n(3_000, 30_000), 400, &|src: &mut Src| {
+        let k = *src.pick(&[8usize, 64, 120]);
+        let d = *src.pick(&[200usize, 240, 250, 253]);
+        let mut doc = b"{".to_vec();
+        for i in 0..k {
+            doc.extend_from_slice(format!("\"e{i}\":{{}},").as_bytes());
+        }
+        doc.extend_from_slice(b"\"deep\":");
+        doc.extend(std::iter::repeat(b'[').take(d));
+        doc.extend_from_slice(b"1");
+        doc.extend(std::iter::repeat(b']').take(d));
+        doc.push(b'}');
+        let rest = src.take(400);
         join_case(&doc, &rest)
     });
     let pc = DocParams { ws: 1, max_depth: 6, max_items: 5, ..DocParams::default() };
